@@ -59,7 +59,7 @@ CHECKS = {
         assumptions=[OS_ASSUMPTION, "Op strings are not compared", "operations that remove/rename a mount point, an ancestor of one, or rename across mounts are not generated (their meaning differs from a single os tree; C06 covers them)",
                      "a history ends silently when success differs between subject and os (that is C01/C06/C07's subject)"],
         legs=[dict(name=k, run="^Test%s$" % n, quick=q, thorough=q * 20, shards=4) for (k, n, q) in [
-            ("mem", "Mem", 250), ("kvplain", "KVPlain", 150), ("osfs", "OSFS", 120), ("ossub2", "OSSub2", 80), ("ossub3", "OSSub3", 80),
+            ("mem", "Mem", 250), ("minimal", "Minimal", 150), ("kvplain", "KVPlain", 150), ("osfs", "OSFS", 120), ("ossub2", "OSSub2", 80), ("ossub3", "OSSub3", 80),
             ("mount0", "Mount0", 100), ("mount1", "Mount1", 200), ("mount2", "Mount2", 200), ("submem", "SubMem", 150), ("subsub", "SubSub", 100), ("submountpt", "SubMountPt", 100)]],
     ),
     "C04": dict(
@@ -100,6 +100,20 @@ CHECKS = {
             dict(name="addmount", run="^TestAddMount$", quick=300, thorough=3000, shards=2),
             dict(name="concurrent", run="^TestConcurrentAddMount$", quick=60, thorough=400, shards=2),
             dict(name="concurrent", run="^TestConcurrentAddMount$", thorough=200, shards=1, race=True, tiers=("thorough",)),
+        ],
+    ),
+    "C08": dict(
+        pkg="c08", level="fault_enumeration",
+        rule=("each case = inner full FS (mem.FS or os.FS on tmpfs) + generated start state (0..6 setup ops) + one helper call with arguments from the C01 alphabet; inside the case EVERY subset of the optional interfaces that "
+              "helper's dispatch inspects and the inner FS implements is enumerated (generated mask types, 2^k, k<=5): the helper on the mask must give the same result (success, data, sentinel class) and final snapshot as on the full FS, "
+              "or fail with ErrNotImplemented leaving the snapshot unchanged; then, for every primitive call index of that fault-free run (FS methods, Open, and Write/Close of files the fallback opened for writing), the run is repeated with "
+              "that call failing: the helper must return an error, or (e.g. io/fs.ReadFile ignoring a failed size hint) its result and final state must equal the full ones. filehelpers leg: every *File helper on a file exposing only fs.File "
+              "must return an ErrNotImplemented *PathError and change nothing. non-trivial = a proper subset on which the fallback made >= 2 primitive calls"),
+        assumptions=[OS_ASSUMPTION, "files handed out by a mask expose all optional file interfaces (forwarded through the file helpers)", "a failing Close is injected only for files opened for writing"],
+        legs=[
+            dict(name="mem", run="^TestMem$", quick=300, thorough=3000, shards=6),
+            dict(name="osfs", run="^TestOSFS$", quick=120, thorough=1200, shards=6),
+            dict(name="filehelpers", run="^TestFileHelpers$"),
         ],
     ),
 }
